@@ -11,7 +11,7 @@ import (
 )
 
 func init() {
-	register("C18", "real connections through the in-memory dialer over the configuration cross product (negotiation on/off x password none/plain/with space x nick/ident/name variants x server with/without port, IPv4, bracketed IPv6 with port x SSL flag for the dial address) - first lines of the wire transcript and the address seen by the dialer judged by Spec.Register; PING tokens (empty-but-present, spaces, colons, 400 bytes) interleaved with other traffic must be answered by PONG with the same token; PingFreq 0 vs 40ms; for every other configuration the link is dropped, Nick() and Privmsg() are called while it is down and the same client reconnects: the new transcript is judged by Spec.Register again; non-trivial = every connection; distinct by configuration / token", c18)
+	register("C18", "real connections through the in-memory dialer over the configuration cross product (negotiation on/off x password none/plain/with space x nick/ident/name variants x server with/without port, IPv4, bracketed IPv6 with port x SSL flag for the dial address) - first lines of the wire transcript and the address seen by the dialer judged by Spec.Register; PING tokens (empty-but-present, spaces, colons, 400 bytes, 4086-4090 / some 5000-8000 / 20000 bytes: lines around and beyond the read buffer) interleaved with other traffic must be answered by PONG with the same token; PingFreq 0 vs 40ms; for every other configuration the link is dropped, Nick() and Privmsg() are called while it is down and the same client reconnects: the new transcript is judged by Spec.Register again; non-trivial = every connection; distinct by configuration / token", c18)
 }
 
 func c18(c *Ctx) {
@@ -95,6 +95,10 @@ func c18(c *Ctx) {
 					var pcs []pingCase
 					for _, tok := range []string{"", "tok", "a b c", ":x", "x :y", strings.Repeat("t", 400), "irc.test", "\x01odd\x01"} {
 						pcs = append(pcs, pingCase{"PING :" + tok, tok})
+					}
+					// very long tokens: lines around and beyond the 4096-byte read buffer
+					for _, n := range []int{4086, 4087, 4088, 4089, 4090, 5000 + c.R.N(3000), 20000} {
+						pcs = append(pcs, pingCase{"PING :" + strings.Repeat("L", n-5) + "-tail", strings.Repeat("L", n-5) + "-tail"})
 					}
 					for _, tok := range []string{"tok42", "99887766", "irc.test", "a:b", "LAG1234567890"} {
 						pcs = append(pcs, pingCase{"PING " + tok, tok}, pingCase{"PING " + tok + " irc.example.org", tok}, pingCase{":hub.example.org PING " + tok + " :leaf.example.org", tok},
